@@ -324,7 +324,8 @@ func c07Monitor(args []string) int {
 	})
 	for _, fen := range []string{"7k/8/8/8/8/5p1p/5P1P/6BK w - - 0 1", "8/8/8/8/8/1k6/p7/K7 w - - 0 1", "k7/P7/K7/8/8/8/8/8 b - - 0 1",
 		"R6k/8/7K/8/8/8/8/8 b - - 0 1", "7k/5Q2/6K1/8/8/8/8/8 b - - 0 1", "8/8/8/8/3k4/8/3q4/3K4 w - - 0 1", "8/8/8/2k5/8/1q6/8/K7 w - - 0 1",
-		"8/P1k5/K7/8/8/8/8/8 b - - 0 1", "6k1/5ppp/8/8/8/8/q7/1K6 w - - 0 1"} {
+		"8/P1k5/K7/8/8/8/8/8 b - - 0 1", "6k1/5ppp/8/8/8/8/q7/1K6 w - - 0 1",
+		"8/8/R7/7k/7p/5N1K/1q4P1/8 w - - 0 1", "8/1Q4p1/5n1k/7P/7K/r7/8/8 b - - 0 1", "4k3/8/8/8/4p3/8/3P4/4K2R w K - 0 1" /* a double step checks; the en-passant capture of the checking pawn is a legal reply */} {
 		p, _ := position.NewPositionFen(fen)
 		positions = append(positions, GamePos{Root: fen, P: p})
 	}
